@@ -700,4 +700,71 @@ theorem goSetBytes3_refines (P : Prims α) (C : Codec α) (g : α → α) (R : R
       split <;> simp [Codec.absR, Codec.errClass, Codec.phase2Go, Codec.mkPt, R.zero]
     · simp [goSetBytes3, goIsMaskInvalid_0, goIsMaskInvalid_32, goIsMaskInvalid_64, goIsMaskInvalid_96, goIsMaskInvalid_128, goIsMaskInvalid_160, goIsMaskInvalid_192, goIsMaskInvalid_224, hL, hd, hm, Layout.classify, h0, h1, h2, Codec.absR, Codec.errClass]
 
+/-! ## the Go-exact decoder against the decoder of the model -/
+
+namespace Codec
+variable {C : Codec α}
+
+theorem phase2Go_unc (sub : Bool) (x y : α) (hoff : C.phase2 sub (.unc x y) ≠ .error .offcurve) :
+    C.phase2Go sub (.unc x y) = C.phase2 sub (.unc x y) := by
+  simp only [Codec.phase2Go, Codec.phase2, Codec.goInSub, Codec.mkPt] at *
+  by_cases h0 : x = C.zero ∧ y = C.zero
+  · simp [h0]
+  · by_cases hc : C.sq y = C.rhs x
+    · simp [h0, hc]
+    · cases sub <;> simp [h0, hc] at hoff ⊢
+
+theorem phase2Go_comp (h : C.OK) (sub : Bool) (x : α) (large : Bool) (hx : C.Valid x)
+    (hlex : C.phase2 sub (.comp x large) ≠ .error .lex) :
+    C.phase2Go sub (.comp x large) = C.phase2 sub (.comp x large) := by
+  simp only [Codec.phase2Go, Codec.phase2] at *
+  cases hs : C.sqrt (C.rhs x) with
+  | none => simp
+  | some y0 =>
+    obtain ⟨hsq, hv⟩ := h.sqrt_sound x y0 hx hs
+    simp only [hs] at hlex ⊢
+    generalize hy : (if C.lex y0 = large then y0 else C.neg y0) = y at hlex ⊢
+    have hcy : C.sq y = C.rhs x := by
+      rw [← hy]; split
+      · exact hsq
+      · rw [h.sq_neg]; exact hsq
+    have h0 := Codec.not_origin h hcy
+    have hin : C.goInSub x y = C.inSub (x, y) := by simp [Codec.goInSub, h0, hcy]
+    rw [hin]
+    by_cases hsub : (sub && !C.inSub (x, y)) = true
+    · simp [hsub]
+    · by_cases hl : C.lex y = large
+      · simp [hsub, hl]
+      · simp [hsub, hl] at hlex
+
+/-- the generated `setBytes` semantics IS the decoder of the model, except on the two findings: the model answers `lex` (a compressed
+flag that disagrees with the sign of the root, only possible for y = 0) or `offcurve` (uncompressed, subgroup check off, not on the curve) -/
+theorem goDecode_eq_setBytes (h : C.OK) (sub : Bool) (buf : List UInt8)
+    (h1 : C.setBytes sub buf ≠ .error .lex) (h2 : C.setBytes sub buf ≠ .error .offcurve) :
+    C.goDecode sub buf = C.setBytes sub buf := by
+  unfold Codec.goDecode Codec.setBytes at *
+  cases hpf : C.parseFrame buf with
+  | error e => simp
+  | ok r =>
+    obtain ⟨fl, xs, ys, n⟩ := r
+    simp only [hpf] at h1 h2 ⊢
+    cases hp1 : C.phase1 fl xs ys with
+    | error e => simp
+    | ok pd =>
+      simp only [hp1] at h1 h2 ⊢
+      have hf := Codec.parseFrame_ok h buf fl xs ys n hpf
+      have key : C.phase2Go sub pd = C.phase2 sub pd := by
+        rcases Codec.phase1_ok fl xs ys pd hp1 with ⟨_, _, rfl⟩ | ⟨_, _, _, rfl⟩ | ⟨_, _, _, rfl⟩ | ⟨_, hlt, rfl⟩ | ⟨_, hlt, rfl⟩
+        · rfl
+        · rfl
+        · apply phase2Go_unc; intro hh; rw [hh] at h2; exact h2 rfl
+        · apply phase2Go_comp h _ _ _ (valid_ofComps h xs hf.xlen ((allLt_iff _ _).mp hlt)).1
+          intro hh; rw [hh] at h1; exact h1 rfl
+        · apply phase2Go_comp h _ _ _ (valid_ofComps h xs hf.xlen ((allLt_iff _ _).mp hlt)).1
+          intro hh; rw [hh] at h1; exact h1 rfl
+      rw [key]
+      rfl
+
+end Codec
+
 end GV.PointCodec
